@@ -209,6 +209,10 @@ def gen_case(rng, k):
                     keep.append(p_)
             others = keep
     cand += others[: max(0, n_cand - len(cand))]
+    if not allow_deg:
+        # also no linear dependence (Kaolinite = 2 Gibbsite + 2 SiO2 ...): drop distractors until independent
+        while degenerate([{"formula": POOL[p_]} for p_ in cand]) and any(p_ not in amounts for p_ in cand):
+            cand.remove([p_ for p_ in cand if p_ not in amounts][-1])
     rng.shuffle(cand)
     minimal = rng.random() < 0.6
     if not minimal and len(cand) > 6:
@@ -439,6 +443,8 @@ def build_problem(r, meta=None):
                         continue
                     st = STATE_OF.get(el, el)
                     if st not in zalk:
+                        st = el          # databases without redox states (pitzer.dat)
+                    if st not in zalk:
                         ok = False
                         break
                     z, al = zalk[st]
@@ -463,7 +469,7 @@ def build_problem(r, meta=None):
             for el, nu in cp.items():
                 if el in SKIP_ELEMS:
                     continue
-                w -= nu * o_master[STATE_OF.get(el, el)]
+                w -= nu * o_master[STATE_OF.get(el, el) if STATE_OF.get(el, el) in o_master else el]
             wc.append(w if p["mineral_water"] else Fr(0))
         gfw = H(p["gfw_water"])
         Tw = [H(sol["mass_water"]) / gfw for sol in p["solns"]]
@@ -569,6 +575,97 @@ def lp_violations(pb, m):
             bad.append("sign constraint %s >= 0 violated: %.3g" % (p["col_name"][j], float(x[j])))
         elif d < 0 and x[j] > tol:
             bad.append("sign constraint %s <= 0 violated: %.3g" % (p["col_name"][j], float(x[j])))
+    return bad
+
+
+def setup_violations(pb):
+    """Exact comparison of the constraint system built by setup_inverse (my_array, delta as read from the engine) with the
+    specification: element rows (solution, phase and epsilon columns), water row, sign vector, uncertainty inequalities."""
+    p = pb["p"]
+    lay = pb["lay"]
+    ns, nph = pb["ns"], pb["nph"]
+    n = lay["count_unknowns"]
+    toler = pb["toler"]
+    if "_rows" not in pb:
+        rows = {}
+        for rr, cc, v in p["array"]:
+            rows.setdefault(rr, {})[cc] = H(v)
+        pb["_rows"] = rows
+        pb["_delta"] = [H(v) for v in p["delta"]]
+    A = pb["_rows"]
+    bad = []
+
+    def close(a, b):
+        return abs(a - b) <= Fr(1, 10**12) * max(abs(a), abs(b)) + Fr(1, 10**30)
+    for r_ in pb["rows"]:
+        if r_.get("water"):
+            row = A.get(lay["row_water"], {})
+            for s in range(ns):
+                if not close(row.get(s, Fr(0)), pb["sgn"][s] * r_["states"][0]["T"][s]):
+                    bad.append("water row, solution %d: %.17g, specification %.17g" % (s, float(row.get(s, 0)), float(pb["sgn"][s] * r_["states"][0]["T"][s])))
+            for i in range(nph):
+                if not close(row.get(lay["col_phases"] + i, Fr(0)), r_["c"][i]):
+                    bad.append("water row, phase %s: %.6g, specification %.6g" % (p["phases"][i]["name"], float(row.get(lay["col_phases"] + i, 0)), float(r_["c"][i])))
+            continue
+        for i in range(nph):
+            tot = sum(A.get(p["elts"][st["j"]]["row"], {}).get(lay["col_phases"] + i, Fr(0)) for st in r_["states"])
+            if not close(tot, r_["c"][i]):
+                bad.append("row %s, phase %s: coefficient %.6g, specification %.6g" % (r_["elem"], p["phases"][i]["name"], float(tot), float(r_["c"][i])))
+        for st in r_["states"]:
+            row = A.get(p["elts"][st["j"]]["row"], {})
+            for s in range(ns):
+                if not close(row.get(s, Fr(0)), pb["sgn"][s] * st["T"][s]):
+                    bad.append("row %s, solution %d: %.17g, specification %.17g" % (st["name"], s, float(row.get(s, 0)), float(pb["sgn"][s] * st["T"][s])))
+                ce = row.get(lay["col_epsilon"] + st["j"] * ns + s, Fr(0))
+                if ce != 0 and ce != pb["sgn"][s]:
+                    bad.append("row %s, epsilon of solution %d has coefficient %.6g" % (st["name"], s, float(ce)))
+    # sign vector
+    for i in range(nph):
+        d = pb["_delta"][lay["col_phases"] + i]
+        want = pb["cons"][i]
+        if (d > 0) - (d < 0) != want:
+            bad.append("sign constraint of phase %s is %.3g, input says %d" % (p["phases"][i]["name"], float(d), want))
+    for s in range(ns - 1):
+        if pb["_delta"][s] <= 0:
+            bad.append("mixing fraction of solution %d is not constrained to be non-negative" % s)
+    # uncertainty inequalities  eps <= b f ,  -eps <= b' f  with b' <= b
+    bounds = {}
+    for r_ in pb["rows"]:
+        if r_.get("water"):
+            continue
+        for st in r_["states"]:
+            for s in range(ns):
+                bounds[(st["j"], s)] = (st["bound"][s], st["name"])
+    seen_upper = set()
+    for rr, row in A.items():
+        if rr < lay["row_epsilon"]:
+            continue
+        cols = [c for c in row if c < n]
+        ec = [c for c in cols if lay["col_epsilon"] <= c < lay["col_ph"]]
+        sc = [c for c in cols if c < ns]
+        if len(ec) != 1 or len(cols) > 2:
+            continue
+        c = ec[0]
+        j, s = divmod(c - lay["col_epsilon"], ns)
+        if (j, s) not in bounds:
+            continue
+        b, nm = bounds[(j, s)]
+        a_s = row.get(s, Fr(0))
+        code_b = -a_s / abs(row[c])
+        if sc and sc != [s]:
+            bad.append("inequality row %s couples epsilon %s/%d with solution %d" % (p["row_name"][rr], nm, s, sc[0]))
+        if row[c] > 0:
+            seen_upper.add((j, s))
+            if not close(code_b, b) and not (b < toler):
+                bad.append("upper limit of the adjustment of %s in solution %d is %.6g, declared uncertainty gives %.6g" % (nm, s, float(code_b), float(b)))
+        else:
+            if code_b > b * (1 + Fr(1, 10**12)) + toler and not (b < toler):
+                bad.append("lower limit of the adjustment of %s in solution %d is %.6g, declared uncertainty gives %.6g" % (nm, s, float(code_b), float(b)))
+    for (j, s), (b, nm) in bounds.items():
+        col = lay["col_epsilon"] + j * ns + s
+        used = any(col in row for row in A.values())
+        if used and b >= toler and (j, s) not in seen_upper:
+            bad.append("adjustment of %s in solution %d has no upper limit" % (nm, s))
     return bad
 
 
@@ -748,14 +845,31 @@ def check_punched(pb, m, mt, heads, row):
 
 # ----------------------------------------------------------------------------- strata for known numerical weaknesses
 def degenerate(phases):
-    seen = set()
+    """the candidate phases are linearly dependent in composition (H, O and water left out): Gypsum/Anhydrite, Calcite/Aragonite,
+    Kaolinite = 2 Gibbsite + 2 SiO2, ... -> the LPs of range() have flat directions that are only closed through the water balance"""
+    vecs = []
+    elems = sorted(set(e for ph in phases for e in parse_formula(ph["formula"]) if e not in SKIP_ELEMS))
     for ph in phases:
         f = parse_formula(ph["formula"])
-        key = tuple(sorted((e, v) for e, v in f.items() if e not in SKIP_ELEMS))
-        if key in seen:
-            return True
-        seen.add(key)
-    return False
+        vecs.append([f.get(e, Fr(0)) for e in elems])
+    # rank by Gaussian elimination over Q
+    rank = 0
+    rows = [v[:] for v in vecs]
+    for col in range(len(elems)):
+        piv = None
+        for i in range(rank, len(rows)):
+            if rows[i][col] != 0:
+                piv = i
+                break
+        if piv is None:
+            continue
+        rows[rank], rows[piv] = rows[piv], rows[rank]
+        for i in range(len(rows)):
+            if i != rank and rows[i][col] != 0:
+                k = rows[i][col] / rows[rank][col]
+                rows[i] = [a - k * b for a, b in zip(rows[i], rows[rank])]
+        rank += 1
+    return rank < len(vecs)
 
 
 def stratum(pb):
@@ -783,9 +897,20 @@ def coq_replay(tag, rep):
             % (tag, tag, rep["nph"], rep["nsol"], "true" if rep["minimal"] else "false", "true" if rep["range"] else "false", rep["force"])]
 
 
+# used when Props/Properties_C18.vo could not be built (e.g. the regenerated tests no longer mean inclusion): the replay then uses
+# the tests the theorems need, so that a divergence of the implementation shows up as a concrete failing input
+COQ_HEAD_FALLBACK = COQ_HEAD.replace("From IPV Require Import C18.Check C18.Search C18.Bits Gen.Gen_C18_bits C18.GenProofs.",
+                                     "From IPV Require Import C18.Check C18.Search.") + """
+Definition t_sup (b m : Z) : bool := Z.eqb (Z.lor b m) b.
+Definition t_bad (b m : Z) : bool := Z.eqb (Z.lor b m) m.
+Definition t_min (b m : Z) : bool := Z.eqb (Z.lor b m) m.
+"""
+USE_FALLBACK = [False]
+
+
 def coq_cases(items):
     """items: [(tag, pb, tol, [(mi, mt, goodmask)], final_good_masks or None)] or ("replay", tag, rep) -> .v text"""
-    L = [COQ_HEAD]
+    L = [COQ_HEAD_FALLBACK if USE_FALLBACK[0] else COQ_HEAD]
     for it in items:
         if it[0] == "replay":
             L += coq_replay(it[1], it[2])
@@ -842,12 +967,30 @@ def eval_shards(items, nshards=5, timeout=600):
 VERDICT_NAMES = ["shape", "balance", "adjustment", "fraction-sign", "phase-sign", "range"]
 
 
+def corpus_cases():
+    """the shipped inverse-modelling examples without isotopes, with a selected output added so that the harness sees the models"""
+    out = {}
+    for name, db in (("ex16", "phreeqc.dat"), ("ex17", "pitzer.dat")):
+        path = os.path.join(vlib.REPO, "phreeqc3-examples", name)
+        if not os.path.exists(path):
+            continue
+        text = open(path, errors="replace").read()
+        text, k = re.subn(r"(?m)^INVERSE_MODELING", "SELECTED_OUTPUT 1\n  -reset false\n  -inverse_modeling true\nINVERSE_MODELING", text, count=1)
+        if k:
+            out[name] = {"text": text, "meta": None, "db": os.path.join(vlib.DB, db)}
+    return out
+
+
 def gen():
     import c18_bits
     c18_bits.generate()
 
 
 _seen_keys = set()
+
+
+def dbname(c):
+    return os.path.basename(c.get("db") or "phreeqc.dat")
 
 
 def report(ctx, key, what, obj):
@@ -870,7 +1013,7 @@ def analyse(ctx, cases, res, stats):
             stats["timeout" if r and r.get("timeout") else "crash"] += 1
             if r and r.get("crash"):
                 report(ctx, "C18:crash", "the library crashed on an inverse-modelling input",
-                              {"kind": "input", "input_text": c["text"], "database": "phreeqc.dat", "observed": r.get("stderr", ""), "expected": "a run that returns"})
+                              {"kind": "input", "input_text": c["text"], "database": dbname(c), "observed": r.get("stderr", ""), "expected": "a run that returns"})
             continue
         if r.get("rc", 1) != 0 or "dberr" in r:
             stats["run ended with ERROR (outside premises)"] += 1
@@ -883,7 +1026,7 @@ def analyse(ctx, cases, res, stats):
             stats["F7 observed"] += 1
             report(ctx, "F7:punch_model-no-end-row",
                           "punch_model never calls fpunchf_end_row: the selected-output string has one row per inverse model, the selected-output table has none",
-                          {"kind": "input", "input_text": c["text"], "database": "phreeqc.dat",
+                          {"kind": "input", "input_text": c["text"], "database": dbname(c),
                            "observed": {"string_rows": len(srows), "table_rows": trows}, "expected": "equal numbers of rows"})
         # replay of the subset search with the real solve_with_mask as tabulated oracle
         if r.get("oracle") and not r.get("oracle_note") and r["problem"] is not None:
@@ -901,14 +1044,13 @@ def analyse(ctx, cases, res, stats):
             rep = {"oracle": r["oracle"], "nph": nph_, "nsol": p_["count_solns"], "minimal": bool(p_["minimal"]), "range": bool(p_["range"]),
                    "force": force, "summary": [int(x) for x in summ[0]] if summ else None,
                    "snaps": [{"good": m["good"], "bad": m["bad"], "minimal": m["minimal"], "calls": m["count_calls"], "xhash": m["xhash"]} for m in r["models"]],
-                   "text": c["text"]}
+                   "text": c["text"], "db": c.get("db")}
             replays.append(("replay", str(cid), rep))
             stats["search replays"] += 1
         elif r.get("oracle_note"):
             stats["no oracle table: " + r["oracle_note"]] += 1
-        if nm == 0:
-            stats["no model reported"] += 1
-            ctx.case(("nomodel", c["text"]), nontrivial=False)
+        if r["problem"] is None:
+            stats["no inverse problem was set up"] += 1
             continue
         try:
             pb = build_problem(r, c.get("meta"))
@@ -926,23 +1068,44 @@ def analyse(ctx, cases, res, stats):
                         want = Fr(float(expected_unc(me, st["name"], s, pb["ns"])))
                         if st["unc"][s] != want:
                             report(ctx, "C18:uncertainty-misread", "uncertainty of %s in solution %d read as %g, input says %g" % (st["name"], s, float(st["unc"][s]), float(want)),
-                                          {"kind": "input", "input_text": c["text"], "database": "phreeqc.dat", "observed": float(st["unc"][s]), "expected": float(want)})
+                                          {"kind": "input", "input_text": c["text"], "database": dbname(c), "observed": float(st["unc"][s]), "expected": float(want)})
+            pe = pb["p"]
+            want_opts = {"minimal": int(me["minimal"]), "range": int(me["range"]), "mp": int(me["mp"]),
+                         "mineral_water": 1 if me["mineral_water"] is None else int(me["mineral_water"])}
+            got_opts = {k: int(pe[k]) for k in want_opts}
+            want_tol = Fr(1e-12) if me["mp"] else Fr(me["tol"] if me["tol"] is not None else 1e-10)
+            if got_opts != want_opts or H(pe["toler"]) != want_tol:
+                report(ctx, "C18:options-misread", "INVERSE_MODELING options read as %r / tolerance %g, input says %r / %g"
+                       % (got_opts, float(H(pe["toler"])), want_opts, float(want_tol)),
+                       {"kind": "input", "input_text": c["text"], "database": dbname(c), "observed": got_opts, "expected": want_opts})
             if [ph["name"] for ph in pb["p"]["phases"]] != me["cand"]:
-                report(ctx, "C18:phases-misread", "phase list differs from the input", {"kind": "input", "input_text": c["text"], "database": "phreeqc.dat"})
+                report(ctx, "C18:phases-misread", "phase list differs from the input", {"kind": "input", "input_text": c["text"], "database": dbname(c)})
             for ph in pb["p"]["phases"]:
                 want = {"": 0, "dis": 1, "pre": -1}[me["cons"][ph["name"]]]
                 if ph["constraint"] != want or bool(ph["force"]) != (ph["name"] in me["force"]):
                     report(ctx, "C18:constraint-misread", "constraint/force of %s read as %d/%d" % (ph["name"], ph["constraint"], ph["force"]),
-                                  {"kind": "input", "input_text": c["text"], "database": "phreeqc.dat"})
+                                  {"kind": "input", "input_text": c["text"], "database": dbname(c)})
+        sv = setup_violations(pb)
+        if sv:
+            stats["setup matrix differs from specification"] += 1
+            report(ctx, "C18:setup-matrix-differs-from-specification",
+                   "the constraint system built by setup_inverse differs from the specification (solution totals, phase formulas, declared "
+                   "uncertainties, dissolve/precipitate constraints): " + "; ".join(sv[:3]),
+                   {"kind": "input", "input_text": c["text"], "database": dbname(c), "observed": sv[:30],
+                    "expected": "rows = mole balances of the specification"})
+        if nm == 0:
+            stats["no model reported"] += 1
+            ctx.case(("nomodel", c["text"]), nontrivial=False)
+            continue
         tol = tolerances(pb)
         texts = split_models_text(r["out"])
         if len(texts) != nm or len(srows) != nm:
             report(ctx, "C18:model-count-mismatch", "printed %d models, punched %d rows, %d model snapshots" % (len(texts), len(srows), nm),
-                          {"kind": "input", "input_text": c["text"], "database": "phreeqc.dat"})
+                          {"kind": "input", "input_text": c["text"], "database": dbname(c)})
         mm = re.search(r"Number of models found: (\d+)", r["out"])
         if mm and int(mm.group(1)) != nm:
             report(ctx, "C18:model-count-mismatch", "summary says %s models, %d were reported" % (mm.group(1), nm),
-                          {"kind": "input", "input_text": c["text"], "database": "phreeqc.dat"})
+                          {"kind": "input", "input_text": c["text"], "database": dbname(c)})
         models = []
         for mi, m in enumerate(r["models"]):
             mt = model_terms(pb, m)
@@ -956,7 +1119,7 @@ def analyse(ctx, cases, res, stats):
             if bad:
                 stats["report mismatch"] += 1
                 report(ctx, "C18:report-mismatch", "printed / punched model differs from the solver's vector: " + "; ".join(bad[:4]),
-                              {"kind": "input", "input_text": c["text"], "database": "phreeqc.dat", "model_index": mi, "observed": bad[:20],
+                              {"kind": "input", "input_text": c["text"], "database": dbname(c), "model_index": mi, "observed": bad[:20],
                                "expected": "every printed number is the %e rendering of the engine value"})
             stats["models"] += 1
         masks = list(r["models"][-1]["good"]) if pb["minimal"] else None
@@ -988,7 +1151,7 @@ def judge(ctx, items, info, coq, stats, reps=None):
             if not supp_ok:
                 stats["mask/support mismatch"] += 1
                 report(ctx, "C18:mask-support-mismatch", "bit mask %s saved for a reported model is not the set of its non-zero fractions/transfers" % bin(g),
-                              {"kind": "input", "input_text": c["text"], "database": "phreeqc.dat", "model_index": mi,
+                              {"kind": "input", "input_text": c["text"], "database": dbname(c), "model_index": mi,
                                "observed": {"mask": g, "fractions": [float(x) for x in mt["fr"]], "transfers": [float(x) for x in mt["tr"]]}})
             if not failed:
                 continue
@@ -1025,7 +1188,7 @@ def judge(ctx, items, info, coq, stats, reps=None):
                             "dissolve/precipitate sign constraints: x_arg is never filled; round-off in degenerate problems); the model is "
                             "reported and is not admissible: " + ", ".join(nonrange))
                 stats["inadmissible: " + key] += 1
-                report(ctx, key, what, {"kind": "input", "input_text": c["text"], "database": "phreeqc.dat", "model_index": mi,
+                report(ctx, key, what, {"kind": "input", "input_text": c["text"], "database": dbname(c), "model_index": mi,
                                         "observed": obs, "expected": "check_inverse_model = true (Coq, exact arithmetic)"})
             if "range" in failed:
                 if "Error in subroutine range" in out:
@@ -1035,7 +1198,7 @@ def judge(ctx, items, info, coq, stats, reps=None):
                     key = "C18:range-outside:" + stratum(pb)
                     what = "a value of a reported model lies outside its reported [min,max] range (no solver error reported)"
                 stats["range: " + key] += 1
-                report(ctx, key, what, {"kind": "input", "input_text": c["text"], "database": "phreeqc.dat", "model_index": mi,
+                report(ctx, key, what, {"kind": "input", "input_text": c["text"], "database": dbname(c), "model_index": mi,
                                           "observed": obs, "expected": "min <= value <= max for every fraction and transfer"})
         if masks is not None:
             a = coq["A"].get(cid)
@@ -1051,7 +1214,7 @@ def judge(ctx, items, info, coq, stats, reps=None):
                     key = "C18:minimal-not-antichain"
                     what = "with -minimal a reported model's set of phases and solutions strictly contains that of another reported model"
                 stats["antichain violated: " + key] += 1
-                report(ctx, key, what, {"kind": "input", "input_text": c["text"], "database": "phreeqc.dat",
+                report(ctx, key, what, {"kind": "input", "input_text": c["text"], "database": dbname(c),
                                         "observed": {"masks": [bin(x) for x in masks], "oracle_hypotheses_violated": hyp},
                                         "expected": "no reported mask strictly contains another"})
 
@@ -1119,36 +1282,53 @@ def judge_replays(ctx, replays, coq, stats):
                     stats["reported vector is not the vector of the last solve"] += 1
                     report(ctx, "C18:reported-vector-not-from-last-solve",
                            "the vector printed for a model is not the one solve_with_mask returns for the mask the search solved last",
-                           {"kind": "input", "input_text": rep["text"], "database": "phreeqc.dat", "model_index": i,
+                           {"kind": "input", "input_text": rep["text"], "database": dbname(rep), "model_index": i,
                             "observed": {"mask_solved": a["solved"], "hash_reported": b["xhash"], "hash_of_solve": hashes.get(a["solved"])}})
         if diffs:
             stats["search replay mismatch"] += 1
             report(ctx, "C18:search-replay-mismatch",
                    "solve_inverse's book-keeping (good/bad/minimal lists, reported models, cl1 calls) differs from the Coq search model "
                    "replayed with the real solve_with_mask as oracle: " + "; ".join(diffs[:3]),
-                   {"kind": "input", "input_text": rep["text"], "database": "phreeqc.dat", "observed": diffs[:20],
+                   {"kind": "input", "input_text": rep["text"], "database": dbname(rep), "observed": diffs[:20],
                     "expected": "identical lists at every reported model and identical summary counts"})
         else:
             stats["search replay identical"] += 1
 
 
 def run(ctx):
-    import collections
+    import collections, time
     stats = collections.Counter()
+    t0 = time.time()
+    timing = {}
     ok = vlib.coq_stage(ctx, "Props/Properties_C18.vo", gen=gen)
+    timing["coq_stage_s"] = round(time.time() - t0, 1)
+    if not ok:
+        # keep going with the model files that do not depend on the regenerated code
+        vlib.coq_make(["C18/Check.vo", "C18/Search.vo"])
+        USE_FALLBACK[0] = True
     ctx.trusted += ["harness/c18_inv.cpp (reads the solver vectors through '#define private public', no change to /repo)",
                     "props/c18.py: formula parser (specification stoichiometry), generator, text parsers",
                     "cl1 (simplex) is an oracle: Section variable `solve` in C18/Search.v with hypotheses H_sub H_mono H_supp H_top for the antichain theorem"]
-    if ctx.replay:
-        rp = json.load(open(ctx.replay))
-        cases = {0: {"text": rp["input_text"], "meta": None}}
+    rp = json.load(open(ctx.replay)) if ctx.replay else None
+    if rp is not None and rp.get("input_text"):
+        # re-execute exactly that input; the same checks report the same key if it still fails
+        cases = {0: {"text": rp["input_text"], "meta": None, "db": os.path.join(vlib.DB, rp.get("database") or "phreeqc.dat")}}
     else:
         n = ctx.n(150, 1200)
         cases = {k: gen_case(ctx.rng, k) for k in range(n)}
-    jobs = [{"id": k, "text": c["text"], "oracle": True} for k, c in cases.items()]
+        for i, (name, c) in enumerate(sorted(corpus_cases().items())):
+            cases[100000 + i] = c
+    jobs = [dict({"id": k, "text": c["text"], "oracle": True}, **({"db": c["db"]} if c.get("db") else {})) for k, c in cases.items()]
+    t1 = time.time()
     res = run_jobs(jobs, timeout_each=30)
+    timing["engine_runs_s"] = round(time.time() - t1, 1)
+    t1 = time.time()
     items, info, replays = analyse(ctx, cases, res, stats)
+    timing["python_analysis_s"] = round(time.time() - t1, 1)
+    t1 = time.time()
     coq, fails = eval_shards(items + replays)
+    timing["coq_case_evaluation_s"] = round(time.time() - t1, 1)
+    ctx.extra["timing"] = timing
     if fails:
         ctx.obligation("coq-evaluation-of-cases", False, fails[0])
     judge(ctx, items, info, coq, stats, {int(t): rp for _, t, rp in replays})
